@@ -27,6 +27,8 @@ RH = "crates/core/src/commands/repair/hotcold.rs"
 UNITS += [
     Unit(name="indexpack_blob_type", file="crates/core/src/repofile/indexfile.rs", anchor="pub fn blob_type(&self) -> BlobType", ret_name="r",
          wrap_open="impl IndexPack {", wrap_close="}",
+         rewrites=[Rw(r"(?P<r>self\.blobs)\.first\(\)\.map_or\((?P<d>[^,]+), \|(?P<v>\w+)\| (?P<b>[^;{}]*?)\)(?=\s*\}?\s*\Z)", r"(match vfirst_blob(&\g<r>) { Some(\g<v>) => \g<b>, None => \g<d> })", regex=True, optional=True,
+                      why="slice::first + Option::map_or(default, closure) -> match (definitions; both bodies verbatim)")],
          functions=["repofile::indexfile::IndexPack::blob_type"],
          contract="\n    ensures r == pack_type_spec(*self),\n"),
     Unit(name="get_tree_packs", file=RH, anchor="pub(crate) fn get_tree_packs<S: Open>(", ret_name="r",
